@@ -31,6 +31,12 @@ fn gen(d: usize) -> Vec<P> {
             out.push(Policy::Threshold(1, vec![a.clone(), b.clone()]));
         }
     }
+    // both children the SAME allocation (Arc identity is observable through Arc::ptr_eq / Arc::make_mut)
+    for a in &sub {
+        let shared = Arc::new(a.clone());
+        out.push(Policy::And { left: Arc::clone(&shared), right: Arc::clone(&shared) });
+        out.push(Policy::Or { left: Arc::clone(&shared), right: shared });
+    }
     for a in sub.iter().take(12) {
         for b in sub.iter().take(12) {
             for c in sub.iter().take(12) {
